@@ -612,6 +612,15 @@ func (c *C) checkOrder(rule string, obs []ordOb) {
 						}
 					case "ret-ok":
 						hit = true
+					case "ret-err":
+						// a return that hands back an error (anything but the nil constant in the error position)
+						if len(rr) > 0 && len(ret.Results) > 0 && isErrorType(ret.Results[len(ret.Results)-1].Type()) {
+							for _, v := range rr[len(rr)-1] {
+								if !isNilConst(v) {
+									hit = true
+								}
+							}
+						}
 					}
 				case strings.HasPrefix(ob.At, "call:"):
 					if ci, ok := in.(ssa.CallInstruction); ok && callName(ci) == ob.At[5:] {
@@ -876,7 +885,6 @@ func (c *C) helperSummary(fn *ssa.Function, onlyNil bool, allEdges bool, vocab [
 	c.sumMemo[key] = inter
 	return inter
 }
-
 
 // recordKind: for a call that encodes a WAL record built in place (encode(&walpb.Record{Type: K, ...})), the constant K.
 func recordKind(ci ssa.CallInstruction) string {
